@@ -224,6 +224,17 @@ class Check:
             ctx.metric("campaigns")
             ctx.metric("N_values", len(ns))
             for ei, plan in enumerate(case["plans"]):
+                if faults and ei > 0:
+                    # with an entry that cannot be stat'ed, what the walk can learn about it (its type from the directory stream,
+                    # or not) depends on the environment: the unlimited result is taken under the same environment as the limits
+                    re_ = sb.run([build()], plan=plan, tz=case["tz"])
+                    if re_.sim or re_.status not in (0, 1) or re_.signal is not None:
+                        viols.append(Violation(PROP, "C06.run", ["C06.run", "abnormal_end", shape], {"query": build(), "outcome": re_.summary()}))
+                        return viols
+                    rows0 = re_.rows(len(sel))
+                    M = len(rows0)
+                    full = collections.Counter(rows0)
+                    keyseq0 = [row[1:1 + len(keys)] for row in rows0]
                 for N in ns:
                     q = build(N)
                     r = sb.run([q], plan=plan, tz=case["tz"])
